@@ -308,7 +308,8 @@ func setChannelRaw(raw string, ch *flows.Channel) string {
 // closeURNs interns everything the model can reach from the URNs seen so far: Normalize, SetChannel(ch) for every
 // channel and nil; three rounds suffice for the pools used (checked: a later round adds nothing)
 func (t *tables) closeURNs() []int {
-	for round := 0; round < 4; round++ {
+	// until nothing new appears: Normalize chains can be several steps long (tel:+43005086055 takes three)
+	for round := 0; round < 30; round++ {
 		n := len(t.in.names)
 		for _, s := range append([]string{}, t.in.names...) {
 			if isURNKey(s) {
